@@ -2,8 +2,16 @@
     exactly the image's pixels (C02). *)
 From Coq Require Import List ZArith Bool Lia.
 Import ListNotations.
-From TI Require Import lib.Term lib.TermFacts lib.Rect model.Block proofs.BlockProofs.
+From TI Require Import lib.Term lib.TermFacts lib.Rect lib.Lines model.Block proofs.BlockProofs.
 Open Scope Z_scope.
+
+Lemma nth_error_map_inv {A B} (f : A -> B) l i y :
+  nth_error (map f l) i = Some y -> exists x, nth_error l i = Some x /\ y = f x.
+Proof.
+  revert i; induction l as [|x l IH]; intros [|i] H; cbn in *; try discriminate.
+  - inversion H. eauto.
+  - apply IH, H.
+Qed.
 
 Section Block.
 Variable alpha kitty : bool.
@@ -18,14 +26,6 @@ Notation render := (render alpha kitty bgcol split).
 Notation expect := (expect alpha kitty bgcol).
 
 (** *** no line feed inside a line *)
-Definition nolf (ts : list tok) : Prop := Forall (fun x => is_lf x = false) ts.
-
-Lemma nolf_count ts : nolf ts -> count_lf ts = 0%nat.
-Proof.
-  unfold nolf, count_lf. induction 1 as [|x l Hx _ IH]; [reflexivity|].
-  cbn [filter]. rewrite Hx. exact IH.
-Qed.
-
 Lemma nolf_glyphs sp g n : nolf (glyphs sp g n).
 Proof.
   induction n as [|n IH]; [constructor|]. cbn [glyphs]. unfold cell_toks.
@@ -114,7 +114,7 @@ Theorem block_rect w rows :
   rows <> [] -> (0 < w)%nat -> (forall r, In r rows -> length r = w) ->
   Rect (Z.of_nat w) (Z.of_nat (length rows)) (render rows).
 Proof.
-  intros Hne Hw Hlen. unfold Rect.
+  intros Hne Hw Hlen. unfold Rect, RectG.
   assert (Hh : (0 < length rows)%nat) by (destruct rows; [congruence|cbn; lia]).
   split; [lia|]. split; [lia|]. split; [|split; [|split]].
   - intros lm t [Hg Hp] Hc _.
@@ -126,7 +126,7 @@ Proof.
     constructor; cbn [row col sgr parser pending visible synced log mk]; auto; try lia.
     exists (grid_evs (row t) lm cellrows). split; [reflexivity|]. split.
     + rewrite <- Hn. apply grid_inside; [lia|exact Hcl].
-    + intros r c Hr Hcc.
+    + intros r c Hr Hcc _.
       destruct (grid_view lm (Z.of_nat w) cellrows (row t) (Z.to_nat (r - row t)) (c - lm) VNone Hcl)
         as (cells & g & a & _ & _ & V); [lia|lia|].
       replace (row t + Z.of_nat (Z.to_nat (r - row t))) with r in V by lia.
@@ -177,6 +177,100 @@ Proof.
   assert (Hm : nth_error (map vis cells) j = Some (vis (g, a))) by (apply map_nth_error, N2).
   rewrite HV in Hm. rewrite (map_nth_error _ _ _ Np) in Hm. inversion Hm as [Hv].
   unfold vis in Hv. cbn [fst snd] in Hv. symmetry. exact Hv.
+Qed.
+
+
+(** *** the block render as a list of lines (for padding, C05) *)
+Definition block_ls (rows : list (list px)) : list (list tok) :=
+  map (fun r => line r ++ [TSgr0]) rows.
+
+Lemma render_as_lines : forall rows, rows <> [] -> render rows = joinlf (block_ls rows).
+Proof.
+  unfold Block.render. induction rows as [|r rest IH]; intros Hne; [congruence|].
+  destruct rest as [|r2 rest'].
+  - reflexivity.
+  - rewrite render_lines_cons2. unfold block_ls in *. cbn [map]. rewrite joinlf_cons2.
+    rewrite <- !app_assoc. f_equal. cbn [app]. f_equal. f_equal.
+    apply IH. congruence.
+Qed.
+
+Lemma nocr_glyphs sp g n : nocr (glyphs sp g n).
+Proof.
+  induction n as [|n IH]; [constructor|]. cbn [glyphs]. unfold cell_toks.
+  destruct sp; repeat constructor; exact IH.
+Qed.
+Lemma nocr_update_buffer c1 c2 ac1 ac2 n : nocr (update_buffer c1 c2 ac1 ac2 n).
+Proof.
+  unfold Block.update_buffer.
+  repeat match goal with |- context [if ?b then _ else _] => destruct b end;
+    repeat (constructor; [reflexivity|]); apply nocr_glyphs.
+Qed.
+Lemma nocr_line_loop : forall pxs c1 c2 ac1 ac2 n, nocr (line_loop c1 c2 ac1 ac2 n pxs).
+Proof.
+  induction pxs as [|p rest IH]; intros; cbn [Block.line_loop].
+  - apply nocr_update_buffer.
+  - destruct (flush_cond alpha c1 c2 ac1 ac2 p); [|apply IH].
+    apply Forall_app. split; [apply nocr_update_buffer|apply IH].
+Qed.
+Lemma nocr_line pxs : nocr (line pxs).
+Proof.
+  unfold Block.line. destruct pxs as [|p rest]; [constructor|].
+  assert (H : forall (b : bool) l, nocr l -> nocr (if b then removelast l else l))
+    by (intros b l Hl; destruct b; [apply Forall_removelast|]; exact Hl).
+  apply H, nocr_line_loop.
+Qed.
+
+Lemma cells_covered r c cells : forall c0,
+  c0 <= c < c0 + Z.of_nat (length cells) -> covered (cell_evs r c0 cells) r c = true.
+Proof.
+  intros c0 Hc.
+  destruct (view_or_covered (cell_evs r c0 cells) r c VNone) as [H|H]; [|exact H].
+  rewrite view_from_cells in H.
+  replace (c0 <=? c) with true in H by (symmetry; apply Z.leb_le; lia).
+  replace (c <? c0 + Z.of_nat (length cells)) with true in H by (symmetry; apply Z.ltb_lt; lia).
+  cbn [andb] in H. destruct (nth_error cells (Z.to_nat (c - c0))) as [[g a]|] eqn:E; [discriminate|].
+  apply nth_error_None in E. lia.
+Qed.
+
+Theorem block_lr w rows :
+  rows <> [] -> (0 < w)%nat -> (forall r, In r rows -> length r = w) ->
+  LinesRect all_cells (Z.of_nat w) (Z.of_nat (length rows)) (block_ls rows).
+Proof.
+  intros Hne Hw Hlen. unfold block_ls.
+  assert (HL : forall r, In r rows ->
+           forall lm t, clean t -> col t = lm ->
+             exists cells, length cells = w /\
+               exec lm t (line r ++ [TSgr0]) =
+               mk (row t) (lm + Z.of_nat w) adefault t (cell_evs (row t) lm cells)).
+  { intros r Hin lm t [Hg Hp] Hcol.
+    assert (Hr : r <> []).
+    { intros ->. specialize (Hlen [] Hin). cbn in Hlen. lia. }
+    destruct (line_exec alpha kitty bgcol split lm r t Hg Hr) as (cells & a & E & V).
+    exists cells. split.
+    - rewrite <- (map_length vis), V, map_length. apply Hlen, Hin.
+    - rewrite exec_app, E. cbn [exec fold_left]. rewrite step_sgr0 by exact Hg.
+      rewrite mk_mk, app_nil_r. cbn [row col mk]. rewrite (Hlen r Hin), Hcol. reflexivity. }
+  constructor.
+  - lia.
+  - rewrite map_length. reflexivity.
+  - destruct rows; [congruence|discriminate].
+  - intros i l Hn. apply nth_error_map_inv in Hn. destruct Hn as (r & Hn & ->).
+    assert (Hin : In r rows) by (eapply nth_error_In; exact Hn).
+    assert (Hi : (i < length rows)%nat) by (apply nth_error_Some; congruence).
+    split.
+    + apply nolf_app; [apply nolf_line|repeat constructor].
+    + intros lm t Hc Hcol Hs. destruct (HL r Hin lm t Hc Hcol) as (cells & Hcl & E).
+      exists (cell_evs (row t) lm cells). split; [exact E|].
+      eapply forallb_inside_mono; [| | | |apply (cells_inside (row t) lm (Z.of_nat w) cells lm)];
+        try lia.
+  - intros l Hin. apply in_map_iff in Hin. destruct Hin as (r & <- & _).
+    apply nocr_app; [apply nocr_line|repeat constructor].
+  - apply coverage_rows; [rewrite map_length; reflexivity|].
+    intros i l lm t Hn Hc Hcol Hs c Hcc.
+    apply nth_error_map_inv in Hn. destruct Hn as (r & Hn & ->).
+    assert (Hin : In r rows) by (eapply nth_error_In; exact Hn).
+    destruct (HL r Hin lm t Hc Hcol) as (cells & Hcl & E).
+    rewrite (line_evs_mk _ _ _ _ _ _ _ E). apply cells_covered. lia.
 Qed.
 
 End Block.
